@@ -19,7 +19,7 @@
    they mention frames only, never bytes or offsets. *)
 From Coq Require Import NArith List Bool.
 From LLRP Require Import Client.Stream Client.StreamProofs.
-From LLRP Require Client.Types Client.Model Client.InvCore Client.Refine.
+From LLRP Require Client.Types Client.Model Client.InvCore Client.Refine Client.Hostile Client.HostileProofs Client.FirstMsg.
 Import ListNotations.
 Open Scope N_scope.
 
@@ -126,6 +126,35 @@ Theorem C04_read_loop_refines_lts :
                     st env O fs log.
 Proof. exact Refine.read_loop_refines_lts. Qed.
 Print Assumptions C04_read_loop_refines_lts.
+
+(* The FIRST message of a connection (read by checkInitialMessage, outside the loop) is
+   dispatched too: a complete first frame that fits the limit is offered to the handler of its
+   type before Connect looks at its type, decodes it or checks the connection status — for
+   every type, payload, decoder outcome class D (including panic/hang) and whether Connect then
+   goes on or fails.  [first_offers_default]: whether the default handler is offered it when
+   no type handler exists (not so in the tree as found: see the refuted statement). *)
+Theorem C04_first_message_offered :
+  forall maxbuf cfg (fl : Hostile.flags) (D : Hostile.decoders) f rest,
+  frame_wf f -> len (f_payload f) <= maxbuf ->
+  Hostile.ci_handler_called (Hostile.check_initial maxbuf cfg fl D (frame_bytes f ++ rest))
+  = has_handler cfg (f_typ f) || (Hostile.first_offers_default fl && has_default cfg).
+Proof. exact FirstMsg.first_message_offered. Qed.
+Print Assumptions C04_first_message_offered.
+
+(* FALSE for the tree as found: "... or else the default handler" does not hold for the first
+   message: a client with only a default handler accepts the connection event and shows it to
+   nobody (limit 4, ReaderEventNotification with 2 payload bytes). *)
+Theorem C04_first_message_default_handler_refuted :
+  has_default FirstMsg.wit_cfg_default = true /\
+  has_handler FirstMsg.wit_cfg_default Hostile.MsgReaderEventNotification = false /\
+  (exists rest, Hostile.ci_res (Hostile.check_initial 4 FirstMsg.wit_cfg_default Hostile.flags_as_found
+                                  HostileProofs.wit_D HostileProofs.wit_ren) = Hostile.CiOk rest) /\
+  Hostile.ci_handler_called (Hostile.check_initial 4 FirstMsg.wit_cfg_default Hostile.flags_as_found
+                               HostileProofs.wit_D HostileProofs.wit_ren) = false /\
+  Hostile.ci_handler_called (Hostile.check_initial 4 FirstMsg.wit_cfg_default Hostile.flags_repaired
+                               HostileProofs.wit_D HostileProofs.wit_ren) = true.
+Proof. exact FirstMsg.first_message_default_handler_refuted. Qed.
+Print Assumptions C04_first_message_default_handler_refuted.
 
 (* the header codec used above agrees with the wire format for every well-formed frame *)
 Theorem C04_header_roundtrip :
